@@ -27,7 +27,7 @@ fn has_principal_error(soft: &serde_json::Value) -> bool {
 
 pub fn run(rep: &mut Report, thorough: bool) {
     crate::util::install_quiet_panic_hook();
-    rep.rule = "targets of 1..24 sentinel threads on zero-filled stacks, each a {pointer holder at the first / last / a random aligned slot above sp with value in {start-1,start,mid,end-1,end,end+1}, misaligned holder, holder below sp, thread spinning inside the principal mapping, nothing}; principal address in {anonymous r-x mapping, file-backed ELF group, hole, 0, MAX}; with and without crash context. Oracle: included <=> ip in [start,end) or an aligned word at/above sp in the checker-read stack in [start,end); records and contexts always present; soft error when required. distinct = hash(holders, principal choice, ctx); non-trivial = Ok dump with >= 1 sentinel judged".into();
+    rep.rule = "targets of 1..24 sentinel threads on zero-filled stacks, each a {pointer holder at the first / last / a random aligned slot above sp with value in {start-1,start,mid,end-1,end,end+1}, misaligned holder, holder below sp, thread spinning inside the principal mapping, nothing}; principal address in {anonymous r-x mapping, file-backed ELF group, hole, inaccessible reservation directly behind the ELF group, 0, MAX}; with and without crash context. Oracle: included <=> ip in [start,end) or an aligned word at/above sp in the checker-read stack in [start,end); records and contexts always present; soft error when required. distinct = hash(holders, principal choice, ctx); non-trivial = Ok dump with >= 1 sentinel judged".into();
     let mut rng = Rng::new(rep.seed.wrapping_mul(202_021));
     let ntargets = if thorough { 200 } else { 14 };
     for ti in 0..ntargets {
@@ -41,16 +41,23 @@ pub fn run(rep: &mut Report, thorough: bool) {
         let espec = ElfSpec::random(&mut rng);
         scen::add_elf_file(&mut b, &mut rng, &dir, "libprincipal.so", espec, false, &mut files);
         let (fa, fl) = (files[0].base, files[0].size);
+        // an inaccessible private anonymous reservation right behind the library (what the dynamic
+        // linker leaves there): the writer widens the module's reported size over it, but it is not
+        // part of the library's mapping, so an address inside it "matches no mapping"
+        assert_eq!(b.cursor(), fa + fl);
+        let resv = b.anon(2, 0, 0, Fill::Keep);
+        let resv_addr = b.spec.regions[resv].addr;
         let hole = rxa - 2 * PAGE;
-        let pchoice = if ti < 5 { ti as u64 } else { rng.below(6) };
+        let pchoice = if ti < 5 { ti as u64 } else if ti == 5 { 6 } else { rng.below(7) };
         let (principal, range): (Option<u64>, Option<(u64, u64)>) = match pchoice {
             0 | 5 => (Some(rxa + rng.below(rxl)), Some((rxa, rxa + rxl))),
             1 => (Some(fa + rng.below(fl)), Some((fa, fa + fl))),
             2 => (Some(hole), None),
             3 => (Some(0), None),
+            6 => (Some(resv_addr + rng.below(2 * PAGE)), None),
             _ => (Some(u64::MAX), None),
         };
-        let (lo, hi) = range.unwrap_or((rxa, rxa + rxl)); // pointers still aim at the r-x region when there is no mapping
+        let (lo, hi) = range.unwrap_or(if pchoice == 6 { (fa, fa + fl) } else { (rxa, rxa + rxl) }); // pointers still aim at the r-x region when there is no mapping
         let n = if ti % 5 == 4 { 24 } else { rng.range(1, 8) as usize };
         let mut holders = Vec::new();
         for k in 0..n {
